@@ -13,6 +13,19 @@ def claim(pid, technique, text, note, design):
     CLAIMS[pid] = dict(technique=technique, text=text, note=note, design=design)
 
 
+claim('C01', 'codec layout terms (AST abstract interpretation of encode/decode) with affine length identities',
+      'For each of the 23 codec classes the encoder\'s byte layout and the decoder\'s read sequence are extracted as terms with '
+      'symbolic lengths and compared: same struct, same attribute per position, bytes read = bytes written for every variable '
+      'part, extents equal, dispatch literals agree with type codes, containers bounded, loops advance. An identity in symbolic '
+      'lengths holds for every field value and item list, which sampling cannot give.',
+      'Trusted: CPython struct/bytes/BytesIO; A1 text fields ASCII; A2 stored fixed lengths at their default. Not decided: '
+      'value-level conversions (strip, UID(), str/bytes), i.e. that every in-range value survives them.', 'DESIGN.md section 3 C01')
+claim('C02', 'encoder layout terms compared with a transcribed table of the PS3.8 9.3 / PS3.7 D.3.3 layouts',
+      'Type codes, field order, widths, big-endian byte order, which attribute carries which standard field and what each length '
+      'field governs are decided for all 23 structures against the oracle; the structural part of the converse direction (any '
+      'order, unknown sub-items, several transfer syntaxes/PDVs, containers respect their length) is decided on the decoder loops.',
+      'Trusted: the transcription in pnd_static/oracles/ps3_8_layouts.py incl. the attribute->field map. Not decided: padding '
+      'character of AE titles; value semantics. Decoder conformance follows from C01 (decoder = inverse of the encoder).', 'DESIGN.md section 3 C02')
 claim('C03', 'buffer-discipline rules over path-sensitive provenance data-flow (AST), header arithmetic derived from struct layouts',
       'Decides, for all paths of the receive functions, the structural necessary conditions of segmentation independence: one '
       'buffer with three writer shapes, header arithmetic derived from the PDU header structs with strict guards, drain order, '
